@@ -10,6 +10,7 @@ import FB.BuildDirs
 import FB.PathNorm
 import FB.Backups
 import FB.Overlay
+import FB.Rollback
 import FB.Conc
 open FB FB.Wire
 open Lean (Json)
@@ -432,6 +433,23 @@ def runOV (j : Lean.Json) : Except String Lean.Json := do
       b := b'
   return Json.mkObj [("outs", .arr outs)]
 
+/-- `_roll_back` (`FB.Rollback`) on a captured state: tree at the moment of the failure + bookkeeping -/
+def runRB (j : Lean.Json) : Except String Lean.Json := do
+  let fs ← parseTree (← j.getObjVal? "tree")
+  let createdDirs ← getPaths (← j.getObjVal? "createdDirs")
+  let newOutputs ← getPaths (← j.getObjVal? "newOutputs")
+  let oldOutputs ← getPaths (← j.getObjVal? "oldOutputs")
+  let oldCreatedDirs ← getPaths (← j.getObjVal? "oldCreatedDirs")
+  let absent ← getPaths (← j.getObjVal? "absent")
+  let saved ← (← (← j.getObjVal? "saved").getArr?).toList.mapM fun x => do
+    let a ← x.getArr?
+    let p := parsePath (← (a[0]?.getD Lean.Json.null).getStr?)
+    let c ← (a[1]?.getD Lean.Json.null).getStr?
+    let m ← getNat (a[2]?.getD Lean.Json.null)
+    pure (p, FB.Entry.file c m)
+  let r : FB.Rollback.RB := { createdDirs, newOutputs, oldOutputs, oldCreatedDirs, bk := { saved, absent } }
+  return Json.mkObj [("tree", showTree (FB.Rollback.rollBack fs r))]
+
 def handle (line : String) : Lean.Json :=
   match Lean.Json.parse line with
   | .error e => Json.mkObj [("bad-op", .str e)]
@@ -448,6 +466,7 @@ def handle (line : String) : Lean.Json :=
       | "path" => runPath j
       | "bk" => runBK j
       | "ov" => runOV j
+      | "rb" => runRB j
       | k => throw s!"unknown kind {k}"
     match r with
     | .ok out => out.setObjVal! "id" id
